@@ -247,6 +247,16 @@ def perm(rng, kind):
     return ([rng.choice(DOMS)] if kind == "dom" else []) + [rng.choice(OBJS), rng.choice(ACTS)]
 
 
+def degenerate_filter(rng, a, k):
+    """w.p. 0.12 the filter carries no field value at all, or blanks only (a[:k] = the arguments before the values)"""
+    u = rng.random()
+    if u < 0.06:
+        return a[:k]
+    if u < 0.12:
+        return a[:k] + [""] * rng.randint(1, 2)
+    return a
+
+
 def gen_call(rng, kind, name, sig_names, variant=0):
     """a call spec {m, a, k} for method `name`; sig_names = the plain method's parameter names (informative).
     variant 0: all optional arguments given; 1: minimal positional; 2: optional ones as keywords"""
@@ -275,10 +285,12 @@ def gen_call(rng, kind, name, sig_names, variant=0):
         a = ([pt] if "named" in n else []) + [[rule(True)], 0, rng.choice(USERS + ROLES)]
     elif n in ("get_filtered_policy", "get_filtered_grouping_policy", "remove_filtered_policy", "remove_filtered_grouping_policy"):
         a = [0, rng.choice(USERS + ROLES)] if rng.random() < 0.6 else [1, rng.choice(ROLES if grouping else (DOMS if kind == "dom" else OBJS))]
+        a = degenerate_filter(rng, a, 1)
     elif n in ("get_filtered_named_policy", "get_filtered_named_grouping_policy", "remove_filtered_named_policy",
                "remove_filtered_named_grouping_policy"):
         a = [pt, 0, rng.choice(USERS + ROLES)] if rng.random() < 0.6 else \
             [pt, 1, rng.choice(ROLES if grouping else (DOMS if kind == "dom" else OBJS))]
+        a = degenerate_filter(rng, a, 2)
     elif n in ("get_named_policy", "get_all_named_subjects", "get_all_named_objects", "get_all_named_actions"):
         a = ["p"]
     elif n in ("get_named_grouping_policy", "get_all_named_roles", "get_named_role_manager"):
